@@ -124,13 +124,14 @@ Scheduling == {"AddKeys", "NextKeys", "NotifyPut", "NotifyEarly"}   \* steps tha
 \* was reported complete / is told to be stored, or (in a step that looks at deadlines) timed out.
 Completed(x) ==
            (IF x.ev = "AddKeys"     THEN {e \in x.s.og : x.held[e.k] = e.t} ELSE {})
-      \cup (IF x.ev = "NotifyPut"   THEN {e \in x.s.og : e.k = x.k /\ e.t = x.t} ELSE {})
+      \* a fetch is identified on the wire by its key only, and what gets stored after merging may bear
+      \* another type than the one advertised: the arrival of the record of key k completes every
+      \* in-flight fetch of k (otherwise a holder that did answer would later be reported as failed)
+      \cup (IF x.ev = "NotifyPut"   THEN {e \in x.s.og : e.k = x.k} ELSE {})
       \cup (IF x.ev = "NotifyEarly" THEN {e \in x.s.og : e.k = x.k /\ e.t = x.t} ELSE {})
-\* Fetches that MAY additionally leave as completed: other versions of a key whose record just
-\* arrived (the code drops them "to avoid a false failure report"), fetches beyond a newly set limit.
+\* Fetches that MAY additionally leave: those beyond a newly set fullness limit.
 CompletedOpt(x) ==
-           (IF x.ev = "NotifyPut"   THEN {e \in x.s.og : e.k = x.k} ELSE {})
-      \cup (IF x.ev = "SetFarthest" THEN {e \in x.s.og : e.k > x.k} ELSE {})
+           (IF x.ev = "SetFarthest" THEN {e \in x.s.og : e.k > x.k} ELSE {})
 \* Fetches whose deadline has passed leave in every step that looks at deadlines; their holder must be
 \* reported unless the fetch (also) counts as completed in this very step.
 TimedOut(x)     == IF x.ev \in Scheduling THEN x.s.ogx \ Completed(x) ELSE {}
@@ -179,7 +180,7 @@ ClosestFirst(x) == \A i \in BatchIssued(x), e \in Eligible(x.r.st) : i.k <= e.k
 
 \* "every fetch leaves the in-flight set when the record arrives, is reported complete, or times out"
 LeavesInFlight(x) ==
-    /\ x.ev = "NotifyPut"   => \A e \in x.r.st.og : ~(e.k = x.k /\ e.t = x.t)
+    /\ x.ev = "NotifyPut"   => \A e \in x.r.st.og : e.k # x.k \/ e \in x.r.issued
     /\ x.ev = "NotifyEarly" => \A e \in x.r.st.og : ~(e.k = x.k /\ e.t = x.t)
     \* (a timed-out fetch may be started afresh in the same step; then it is in `issued`)
     /\ \A e \in TimedOut(x) : e \notin x.r.st.og \/ e \in x.r.issued
